@@ -121,6 +121,36 @@ CHECKS.update({
             "cooperative shims", "4/C16"),
 })
 
+E_NOTE = "Trusted: hashlib, the independent layout implementation (hsverif/absx.py). The product is finite and stated in the evidence rule."
+CHECKS.update({
+    "C14": ("E", "exploration",
+            "200 creation configurations x every reopening configuration differing in at most 2 coordinates (thorough: all "
+            "200 x 200) x int/str encodings x empty/populated, plus unsupported and re-spelled algorithm names, missing / None "
+            "/ extra keys, non-integers and store data without hashstore.yaml; accepted iff all four values equal; the "
+            "snapshot of the store's parent directory must not change.", E_NOTE,
+            "bounded-exhaustive enumeration of configuration pairs against an independent oracle", "4/C14"),
+    "C15": ("E", "exploration",
+            "120 stores (depth 1-6 x width 1-4 x 5 algorithms); after a fixed script the ENTIRE tree (paths and bytes) is "
+            "compared with the tree predicted by an independent implementation of the README layout; hashstore.yaml is "
+            "parsed and must carry the documented keys.", E_NOTE,
+            "bounded-exhaustive enumeration of configurations with an independent layout oracle", "4/C15"),
+    "C17": ("E", "exploration",
+            "Grammar of invalid values for every parameter of the nine public methods, one at a time and in pairs, from an "
+            "empty and a populated store: documented error class, byte-identical snapshot, no identifier left locked; "
+            "successful read-only calls leave the snapshot identical.", E_NOTE,
+            "bounded-exhaustive enumeration of an invalid-argument grammar (singles and pairs)", "4/C17"),
+    "C18": ("E", "exploration",
+            "All ordered pairs of a 43-element adversarial identifier alphabet through a 12-step script sharing one object, "
+            "bystander checked after every step; every mutating file-system operation is recorded by the interposition "
+            "layer and must lie inside the root at a path made of hash tokens only.", E_NOTE,
+            "bounded-exhaustive enumeration of identifier pairs with a recorded-path containment oracle", "4/C18"),
+    "C20": ("E", "exploration",
+            "Every client verb x option subset x value kind executed through hashstoreclient.main() on one copy of a store "
+            "and through the API on another; same outcome class, API values present in the output, equal abstract states; "
+            "create (-chs) over a configuration grid in both directions.", E_NOTE,
+            "bounded-exhaustive differential enumeration client vs API", "4/C20"),
+})
+
 NOT_YET = {}
 
 
